@@ -248,3 +248,13 @@ def dotted(node):
         parts.append(node.id)
         return ".".join(reversed(parts))
     return None
+
+
+def call_name(node):
+    """`<callee's last name>()` of the first call in a statement / expression: a key component that does not change when arguments or
+    receivers are renamed (`rval = rval.wrap_functions(_tool)` -> `wrap_functions()`)."""
+    for n in ast.walk(node):
+        if isinstance(n, ast.Call):
+            f = n.func
+            return (f.attr if isinstance(f, ast.Attribute) else f.id if isinstance(f, ast.Name) else "call") + "()"
+    return norm(node)[:40]
